@@ -348,7 +348,7 @@ Proof.
     change (get (G0 :: Y') (i0 :: idx)) with (nth O (run (vstep [1] G0 i0) Y' idx) 0). rewrite <- Hprod.
     assert (Es : s = total (G0 :: Y')) by (rewrite Hsv, bsum_0 by auto; ring). rewrite <- Es.
     replace (marg0 (G0 :: Y') i0 + 0) with (marg0 (G0 :: Y') i0) by ring.
-    rewrite !(Hdiv _ s). ring.
+    rewrite (Hdiv (marg0 (G0 :: Y') i0) s), (Hdiv (lprod K (along 0 idx Pn) * marg0 (G0 :: Y') i0) s). ring.
   - cbn [tl hd]. intros Hne'. specialize (Hne Hne'). rewrite <- (vstep_one _ _ H1) in Hne.
     rewrite <- (nth_pvec _ _ _ _ Hi0) in Hne. fold w1 pv in Hne. now rewrite Hpv in Hne by auto.
 Qed.
